@@ -1,7 +1,7 @@
 (* C09: NEXUS CHARACTERS/DATA block, token level: what the reader does on what the writer wrote *)
 From Coq Require Import ZArith List Bool Lia.
 From DV Require Import Model.PyPrims Model.C09AlphaTypes Model.C09Alphabets Model.C09Model Model.C09Spec
-  Model.C09Nexus Proofs.C09Text Proofs.C09Fasta.
+  Model.C09Nexus Model.C09Convert Proofs.C09Text Proofs.C09Fasta.
 Import ListNotations.
 Open Scope Z_scope.
 Arguments state_of_symbol : simpl never.
@@ -178,8 +178,6 @@ Lemma matrix_loop_skip_eol : forall fuel st a nchar rows first toks, x_cap st = 
   matrix_loop lower fuel st a nchar rows first (EOL :: toks) = matrix_loop lower fuel st a nchar rows first toks.
 Proof. intros. destruct fuel; [reflexivity|]. cbn [matrix_loop]. rewrite H. reflexivity. Qed.
 
-Definition label_token_ok (l : tok) : bool := negb (is_eol l) && negb (text_eqb l t_semi).
-
 Definition nrow_ok (a : alphabet) (nchar : Z) (r : text * list Z) : Prop :=
   label_token_ok (fst r) = true /\ forallb (cell_ok a) (snd r) = true /\ len (snd r) = nchar.
 
@@ -293,11 +291,225 @@ Proof.
   rewrite Nat.add_1_r in IH. rewrite <- app_assoc in IH. simpl in IH. exact IH.
 Qed.
 
-Definition fixed_dtype (dt : dtype) : bool :=
-  match dt with DtDna | DtRna | DtNucleotide | DtProtein => true | _ => false end.
-
 Arguments render_nat : simpl never.
 Arguments matrix_loop : simpl never.
 Arguments alphabet_of_dtype : simpl never.
 Arguments row_tokens : simpl never.
 
+
+(* ---- statement by statement, on an explicit state record ---- *)
+
+Arguments is_eol !t.
+Arguments all_digits : simpl never.
+Arguments parse_nat : simpl never.
+Arguments block_loop : simpl never.
+Arguments parse_matrix : simpl never.
+
+Lemma digits_not_eol : forall v, all_digits v = true -> is_eol v = false.
+Proof.
+  intros v H. unfold all_digits in H. destruct v as [|c r]; [discriminate|].
+  simpl in H. apply andb_true_iff in H. destruct H as [H _].
+  destruct (digit_not_nlcr c H) as [A B]. unfold is_eol, text_eqb. simpl.
+  apply Z.eqb_neq in A. apply Z.eqb_neq in B. rewrite A, B. reflexivity.
+Qed.
+
+Lemma next_tok_keep : forall t r, is_eol t = false -> next_tok false (t :: r) = Some (t, r).
+Proof. intros. simpl. rewrite H. reflexivity. Qed.
+
+Lemma block_loop_eq : forall lower f st done toks,
+  block_loop lower (S f) st done toks =
+    match next_tok (x_cap st) toks with
+    | None => Ok (st, done, [])
+    | Some (t0, r) =>
+      let t := ucase t0 in
+      if text_eqb t kw_END || text_eqb t kw_ENDBLOCK then Ok (st, done, skip_semi (x_cap st) r)
+      else if text_eqb t kw_TITLE then
+        do x <- parse_title (x_cap st) r ;;
+        let (title, r') := x in block_loop lower f (set_title st (Some title)) done r'
+      else if text_eqb t kw_LINK then
+        do x <- parse_link f (x_cap st) None
+                           (match next_tok (x_cap st) r with Some (u, _) => Some (ucase u) | None => None end)
+                           (match next_tok (x_cap st) r with Some (_, q) => q | None => [] end) ;;
+        let (lk, r') := x in block_loop lower f (set_link st lk) done r'
+      else if text_eqb t kw_DIMENSIONS then
+        do x <- parse_dimensions f st r ;;
+        let (st', r') := x in block_loop lower f st' done r'
+      else if text_eqb t kw_FORMAT then
+        do x <- req_tok (x_cap st) r ;;
+        let (u, r1) := x in
+        do y <- parse_format f st (ucase u) r1 ;;
+        let (st', r') := y in block_loop lower f st' done r'
+      else if text_eqb t kw_MATRIX then
+        do x <- parse_matrix lower f st r ;;
+        let '(st', br, r') := x in block_loop lower f st' (done ++ [br]) r'
+      else if text_eqb t kw_BEGIN then Err ParseErr
+      else block_loop lower f st done r
+    end.
+Proof. reflexivity. Qed.
+
+Section Steps.
+Variables (ns : list text) (ntax nchar0 : option Z) (dt0 : dtype) (sy : text) (gap mis : tok)
+          (mt : list tok) (il cs : bool) (ti lk : option tok).
+
+Lemma pd_nchar : forall f v n rest,
+  all_digits v = true -> parse_nat v = Some n ->
+  parse_dimensions (S (S f)) (mkNX ns ntax nchar0 dt0 sy gap mis mt il false cs ti lk)
+                   (kw_NCHAR :: t_eq :: v :: t_semi :: rest)
+  = Ok (mkNX ns ntax (Some n) dt0 sy gap mis mt il false cs ti lk, rest).
+Proof.
+  intros. cbn. unfold req_tok at 1. rewrite next_tok_keep by (apply digits_not_eol; assumption).
+  cbn. rewrite H, H0. cbn. reflexivity.
+Qed.
+
+Lemma pd_ntax_nchar : forall f v1 n1 v2 n2 rest,
+  all_digits v1 = true -> parse_nat v1 = Some n1 -> all_digits v2 = true -> parse_nat v2 = Some n2 ->
+  parse_dimensions (S (S (S f))) (mkNX ns ntax nchar0 dt0 sy gap mis mt il false cs ti lk)
+                   (kw_NTAX :: t_eq :: v1 :: kw_NCHAR :: t_eq :: v2 :: t_semi :: rest)
+  = Ok (mkNX ns (Some n1) (Some n2) dt0 sy gap mis mt il false cs ti lk, rest).
+Proof.
+  intros. cbn. unfold req_tok at 1. rewrite next_tok_keep by (apply digits_not_eol; assumption).
+  cbn. rewrite H, H0. cbn. unfold req_tok at 1. rewrite next_tok_keep by (apply digits_not_eol; assumption).
+  cbn. rewrite H1, H2. cbn. reflexivity.
+Qed.
+
+Definition fmt_tail : list tok := [kw_GAP; t_eq; t_dash; kw_MISSING; t_eq; t_qm; kw_MATCHCHAR; t_eq; t_dot].
+
+Lemma pf_fixed : forall f (kw : tok) (dt : dtype) rest,
+  (kw = kw_DNA /\ dt = DtDna) \/ (kw = kw_RNA /\ dt = DtRna) \/ (kw = kw_NUCLEOTIDE /\ dt = DtNucleotide)
+  \/ (kw = kw_PROTEIN /\ dt = DtProtein) ->
+  parse_format (S (S (S (S (S f))))) (mkNX ns ntax nchar0 dt0 sy gap mis mt il false cs ti lk) kw_DATATYPE
+    (t_eq :: kw :: kw_GAP :: t_eq :: t_dash :: kw_MISSING :: t_eq :: t_qm :: kw_MATCHCHAR :: t_eq :: t_dot :: t_semi :: rest)
+  = Ok (mkNX ns ntax nchar0 dt sy t_dash t_qm [t_dot; t_dot] il false cs ti lk, rest).
+Proof.
+  intros f kw dt rest [[A B]|[[A B]|[[A B]|[A B]]]]; subst; cbn; reflexivity.
+Qed.
+
+End Steps.
+
+Arguments parse_dimensions : simpl never.
+Arguments parse_format : simpl never.
+
+Lemma fixed_dtype_cases : forall dt, fixed_dtype dt = true ->
+  exists kw, format_tokens dt [alphabet_of_dtype dt] [] = Ok (kw_DATATYPE :: t_eq :: kw :: fmt_tail)
+  /\ ((kw = kw_DNA /\ dt = DtDna) \/ (kw = kw_RNA /\ dt = DtRna) \/ (kw = kw_NUCLEOTIDE /\ dt = DtNucleotide)
+      \/ (kw = kw_PROTEIN /\ dt = DtProtein)).
+Proof.
+  intros dt H. destruct dt; try discriminate; eexists; (split; [reflexivity|]); tauto.
+Qed.
+
+Ltac norm_st := cbv beta iota delta [set_ns set_ntax set_nchar set_dtype set_symbols set_gap set_missing set_match
+  set_interleave set_cap set_title set_link nx_init x_ns x_ntax x_nchar x_dtype x_symbols x_gap x_missing x_match
+  x_interleave x_cap x_cs x_title x_link].
+
+Section Block.
+Variable lower : text -> text.
+
+Lemma parse_matrix_fixed : forall fuel ns nt nchar dt sy gap mis il cs ti lk R,
+  fixed_dtype dt = true -> nt <> 0 -> nchar <> 0 ->
+  parse_matrix lower fuel (mkNX ns (Some nt) (Some nchar) dt sy gap mis [t_dot; t_dot] il false cs ti lk) R
+  = do x <- matrix_loop lower fuel (mkNX ns (Some nt) (Some nchar) dt sy gap mis [t_dot; t_dot] il false cs ti lk)
+                        (alphabet_of_dtype dt) nchar [] None R ;;
+    let '(st', a', rows, rest) := x in
+    Ok (st', mkBR dt a' (map (fun r => (nth (fst r) (x_ns st') [], snd r)) rows) (x_ns st')
+                  (x_title st') (x_link st'), rest).
+Proof.
+  intros. unfold parse_matrix. cbn [x_ntax x_nchar x_dtype nonzero].
+  apply Z.eqb_neq in H0. apply Z.eqb_neq in H1. rewrite H0, H1.
+  destruct dt; try discriminate; reflexivity.
+Qed.
+
+Theorem nexus_chars_roundtrip_l : forall (dt : dtype) (simple cs : bool) (m : matrix) (nchar : Z),
+  fixed_dtype dt = true ->
+  m <> [] -> 1 <= nchar ->
+  forallb label_token_ok (map fst m) = true ->
+  NoDup (map (keyf lower cs) (map fst m)) ->
+  cells_ok (alphabet_of_dtype dt) m = true ->
+  rectangular nchar m = true ->
+  exists toks st',
+    write_chars_block dt [alphabet_of_dtype dt] [] (mkNW simple None None) m = Ok toks
+    /\ read_chars_block lower
+         (if simple then nx_init [] None cs else nx_init (map fst m) (Some (len m)) cs) toks
+       = Ok (st', [mkBR dt (alphabet_of_dtype dt) m (map fst m) None None], [EOL; EOL; EOL]).
+Proof.
+  intros dt simple cs m nchar Hdt Hm Hn Hl Hnd Hc Hr.
+  set (a := alphabet_of_dtype dt) in *.
+  assert (Esites : zmax_list (map (fun r : text * list Z => len (snd r)) m) = Some nchar).
+  { apply zmax_list_const; [destruct m; [contradiction | discriminate]|].
+    intros x Hx. apply in_map_iff in Hx. destruct Hx as [r [E Hin]]. subst x.
+    unfold rectangular in Hr. rewrite forallb_forall in Hr. apply Z.eqb_eq. apply (Hr r Hin). }
+  assert (Hrows : forall r, In r m -> nrow_ok a nchar r).
+  { intros r Hin. unfold nrow_ok. split; [|split].
+    - rewrite forallb_forall in Hl. apply Hl. apply in_map. exact Hin.
+    - unfold cells_ok in Hc. rewrite forallb_forall in Hc. apply (Hc r Hin).
+    - unfold rectangular in Hr. rewrite forallb_forall in Hr. apply Z.eqb_eq. apply (Hr r Hin). }
+  assert (Lm : 1 <= len m) by (destruct m; [contradiction | unfold len; simpl; lia]).
+  destruct (fixed_dtype_cases dt Hdt) as [kw [Efmt Hkw]]. fold a in Efmt.
+  unfold write_chars_block. rewrite Esites. rewrite Efmt. cbn [bind nw_simple nw_title nw_link].
+  eexists. eexists. split; [reflexivity|].
+  set (R := concat (map (row_tokens a) m) ++ [t_semi; EOL; kw_END; t_semi; EOL; EOL; EOL]).
+  assert (LR : (length m <= length R)%nat).
+  { unfold R. rewrite app_length. pose proof (rows_tokens_length a m). lia. }
+  assert (NL : map (fun r : nat * list Z => (nth (fst r) (map fst m) [], snd r)) (numbered m) = m)
+    by (exact (numbered_labels m [])).
+  destruct simple.
+  - (* DATA block: NTAX and NCHAR *)
+    cbn [app]. unfold read_chars_block. cbn [nx_init x_cap next_tok negb andb].
+    cbn.
+    rewrite block_loop_eq. cbn. norm_st.
+    rewrite pd_ntax_nchar with (n1 := len m) (n2 := nchar) by (try apply all_digits_render; apply parse_render_nat; lia).
+    cbn [bind].
+    rewrite block_loop_eq. cbn. norm_st.
+    rewrite pf_fixed with (kw := kw) (dt := dt) by exact Hkw.
+    cbn [bind].
+    rewrite block_loop_eq. cbn. norm_st.
+    rewrite parse_matrix_fixed by (try assumption; lia).
+    rewrite matrix_loop_skip_eol by reflexivity.
+    unfold R. fold a.
+    match goal with |- context [matrix_loop lower ?fuel ?st _ _ _ _ _] =>
+      pose proof (matrix_loop_rows lower a nchar true m [] st fuel None [EOL; kw_END; t_semi; EOL; EOL; EOL]) as ML
+    end.
+    change (numbered []) with (@nil (nat * list Z)) in ML. cbn [app] in ML.
+    rewrite ML; clear ML.
+    + cbn [bind]. norm_st.
+      rewrite block_loop_eq. cbn. rewrite NL. reflexivity.
+    + reflexivity.
+    + reflexivity.
+    + reflexivity.
+    + exact Hn.
+    + pose proof LR as LR'. unfold R in LR'. lia.
+    + reflexivity.
+    + intros _. exists (len m). split; [reflexivity | unfold len; simpl; lia].
+    + exact Hrows.
+    + exact Hnd.
+  - (* CHARACTERS block: the namespace and NTAX come from the TAXA block *)
+    cbn [app]. unfold read_chars_block. cbn [nx_init x_cap next_tok negb andb].
+    cbn.
+    rewrite block_loop_eq. cbn. norm_st.
+    rewrite pd_nchar with (n := nchar) by (try apply all_digits_render; apply parse_render_nat; lia).
+    cbn [bind].
+    rewrite block_loop_eq. cbn. norm_st.
+    rewrite pf_fixed with (kw := kw) (dt := dt) by exact Hkw.
+    cbn [bind].
+    rewrite block_loop_eq. cbn. norm_st.
+    rewrite parse_matrix_fixed by (try assumption; lia).
+    rewrite matrix_loop_skip_eol by reflexivity.
+    unfold R. fold a.
+    match goal with |- context [matrix_loop lower ?fuel ?st _ _ _ _ _] =>
+      pose proof (matrix_loop_rows lower a nchar false m [] st fuel None [EOL; kw_END; t_semi; EOL; EOL; EOL]) as ML
+    end.
+    change (numbered []) with (@nil (nat * list Z)) in ML. cbn [app] in ML.
+    rewrite ML; clear ML.
+    + cbn [bind]. norm_st.
+      rewrite block_loop_eq. cbn. rewrite NL. reflexivity.
+    + reflexivity.
+    + reflexivity.
+    + reflexivity.
+    + exact Hn.
+    + pose proof LR as LR'. unfold R in LR'. lia.
+    + reflexivity.
+    + intro X. discriminate.
+    + exact Hrows.
+    + exact Hnd.
+Qed.
+
+End Block.
